@@ -54,6 +54,15 @@ impl<'a> BufMut for &'a mut BytesMut { #[verifier::external_body] fn writer(self
 impl BytesMut {
     #[verifier::external_body] pub fn new() -> (r: Self) ensures r@ == Seq::<u8>::empty() { unimplemented!() }
     #[verifier::external_body] pub fn freeze(self) -> (r: Bytes) ensures r@ == self@ { unimplemented!() }
+    #[verifier::external_body] pub fn len(&self) -> (r: usize) ensures r == self@.len() { unimplemented!() }
+    #[verifier::external_body] pub fn is_empty(&self) -> (r: bool) ensures r == (self@.len() == 0) { unimplemented!() }
+}
+// (observers of the bytes API that edits commonly reach for; each is the obvious statement about the byte sequence)
+impl Bytes {
+    #[verifier::external_body] pub fn new() -> (r: Self) ensures r@ == Seq::<u8>::empty() { unimplemented!() }
+    #[verifier::external_body] pub fn len(&self) -> (r: usize) ensures r == self@.len() { unimplemented!() }
+    #[verifier::external_body] pub fn is_empty(&self) -> (r: bool) ensures r == (self@.len() == 0) { unimplemented!() }
+    #[verifier::external_body] pub fn clone(&self) -> (r: Self) ensures r@ == self@ { unimplemented!() }
 }
 
 // bincode 1.3 with default options: `ser` is its byte layout, `de` its decoder; the inverse law is ASSUMED
